@@ -79,7 +79,8 @@ def run(tier, seed):
             ck.samples += vc.sample_scenarios(tr, 3, maxlines=6)
             for k in ("solves", "singular_refusals", "other_refusals", "skipped_big", "rhs_class_column_combos"):
                 ck.extra[k] = s.get(k, 0)
-            if s.get("solves", 0) and s.get("skipped_big", 0) > 0.05 * s["solves"]:
+            # vacuity guard (only meaningful on a run without violations: a wrong answer is not a magnitude skip)
+            if not ck.violations and s.get("solves", 0) and s.get("skipped_big", 0) > 0.05 * s["solves"]:
                 raise vc.MachineryError("too many solves skipped for magnitude: %s of %s" % (s["skipped_big"], s["solves"]))
         os.remove(tr)
     ck.exhaustive = True
